@@ -6,6 +6,8 @@ import SlicecVerif.Drv.C02lex
 import SlicecVerif.Drv.C06c
 import SlicecVerif.Drv.C02parse
 import SlicecVerif.Drv.C09lex
+import SlicecVerif.Drv.C09clex
+import SlicecVerif.Drv.C09doc
 import SlicecVerif.Drv.C17
 import SlicecVerif.Drv.C08
 import SlicecVerif.Drv.C16
@@ -42,6 +44,9 @@ def main (args : List String) : IO UInt32 := do
     | "C06c" => genC06c t s o
     | "C02parse" => genC02parse t s o
     | "C09lex" => genC09lex t s o
+    | "C09clex" => genC09clex t s o
+    | "C09doc" => genC09doc t s o
+    | "C09docp" => genC09docp t s o
     | "C17" => genC17 t s o
     | "C08" => genC08 t s o
     | "C08p" => genC08p t s o
